@@ -8,15 +8,19 @@
 (***************************************************************************)
 EXTENDS Naturals, Sequences, FiniteSets, TLC, Json
 
-CONSTANTS Classes, Locs, MaxFiles, Modes, Formats, Threads, VerifyOpts
-VARIABLES files, mode, fmt, verify, threads, phase
-vars == <<files, mode, fmt, verify, threads, phase>>
+CONSTANTS Classes, Locs, MaxFiles, Modes, Formats, Threads, VerifyOpts, RangeOpts
+VARIABLES files, mode, fmt, verify, threads, rng, phase
+vars == <<files, mode, fmt, verify, threads, rng, phase>>
 
 Items == {[cls |-> c, loc |-> l] : c \in Classes, l \in Locs} \ {[cls |-> "missing", loc |-> "dir"]}
-Init == files \in UNION {[1..n -> Items] : n \in 1..MaxFiles} /\ mode = "" /\ fmt = "" /\ verify = FALSE /\ threads = 0 /\ phase = "files"
+Init == files \in UNION {[1..n -> Items] : n \in 1..MaxFiles} /\ mode = "" /\ fmt = "" /\ verify = FALSE /\ threads = 0 /\ rng = FALSE /\ phase = "files"
 Configure ==
   /\ phase = "files"
-  /\ \E m \in Modes, f \in Formats, v \in VerifyOpts, t \in Threads :
+  /\ \E m \in Modes, f \in Formats, v \in VerifyOpts, t \in Threads, r \in RangeOpts :
+        \* a formatting range (bytes 0..5, before any syntax error of the unparseable class): only next to files whose
+        \* expected outcome does not depend on how much of them is formatted
+        /\ (r => (~v /\ \A i \in DOMAIN files : files[i].cls \in {"formatted", "unparseable", "missing", "nonutf8", "crash"}))
+        /\ rng' = r
         /\ (m = "write" => f \in {"standard", "json"})
         /\ ((\E i \in DOMAIN files : files[i].cls = "verifyfail") => v)          \* only meaningful with --verify
         /\ mode' = m /\ fmt' = f /\ verify' = v /\ threads' = t
@@ -25,7 +29,7 @@ Next == Configure
 Spec == Init /\ [][Next]_vars
 
 Case == [ files |-> [i \in DOMAIN files |-> [cls |-> files[i].cls, loc |-> files[i].loc, i |-> i]],
-          mode |-> mode, fmt |-> fmt, verify |-> verify, threads |-> threads,
+          mode |-> mode, fmt |-> fmt, verify |-> verify, threads |-> threads, rng |-> rng,
           sortreq |-> \E i \in DOMAIN files : files[i].cls = "verifyfail" ]
 Emit == phase = "done" => PrintT(<<"CASE", ToJson(Case)>>)
 =============================================================================
